@@ -22,6 +22,8 @@ type Network struct {
 	// conns per peer address: every connection ever opened (for the
 	// "client keeps no connection to a banned address" oracle).
 	conns map[string][]*Conn
+	// opens[addr][i] is the open point of conns[addr][i] (see ConnRec).
+	opens map[string][]connOpen
 }
 
 func NewNetwork(log *Log) *Network {
@@ -60,6 +62,7 @@ func (n *Network) Dial(addr net.Addr) (net.Conn, error) {
 	n.mu.Lock()
 	n.conns[key] = append(n.conns[key], b)
 	n.mu.Unlock()
+	n.noteOpen(key) // additive: per-connection open point (ConnRecs)
 	go p.Serve(b)
 	return a, nil
 }
